@@ -180,6 +180,9 @@ def toidentifier(value):
             return "neg" + str(-value)
         return str(value)
     elif isinstance(value, float):
+        if value == 0 and math.copysign(1, value) < 0:
+            # constants 0.0 and -0.0 are different expressions and must not share a reference name
+            return "fneg0"
         try:
             intvalue = int(value)
         except OverflowError:
@@ -195,6 +198,8 @@ def toidentifier(value):
         assert value.isidentifier(), value
         return value
     elif isinstance(value, numpy.floating):
+        if value == 0 and numpy.signbit(value):
+            return value.dtype.kind + "neg0"
         try:
             intvalue = int(value)
         except OverflowError:
